@@ -862,8 +862,29 @@ func rulesC01(w *World, o *Out) {
 			ok := len(adds) > 0
 			for _, a := range adds {
 				hdr := loopHeaderOf(a.Block())
-				if hdr == nil || !hdr.Dominates(d.Block()) {
+				switch {
+				case hdr == nil:
 					ok = false
+				case a.Instr.Parent() == cancel && d.Instr.Parent() == cancel:
+					if !hdr.Dominates(d.Block()) {
+						ok = false
+					}
+				default:
+					// the re-pooling loop and/or the delete live in helpers extracted from this function:
+					// the call that runs the loop must precede the (call that performs the) delete on every
+					// path, and the helper must not report success from inside its loop
+					av, dv := normFrom(cancel, a.Instr), normFrom(cancel, d.Instr)
+					if av == nil || dv == nil || av.Parent() != cancel || dv.Parent() != cancel ||
+						!PrecededBy(cancel, dv, map[ssa.Instruction]bool{av: true}) {
+						ok = false
+					}
+					if h := a.Instr.Parent(); h != cancel {
+						for r := range SuccessReturns(h) {
+							if inSameCycle(hdr, r.Block()) {
+								ok = false
+							}
+						}
+					}
 				}
 				ap, _ := fl.Influence(a.Args()[len(a.Args())-1])
 				okT := false
